@@ -1290,12 +1290,19 @@ impl CodegenContext {
         &mut self,
         f: F,
     ) -> CoreResult<()> {
+        let dummy = Identifier::new("$dummy");
+        if self.current_segment.as_ref() == Some(&dummy) {
+            // We're already emitting to the dummy segment (e.g. an untaken branch inside an uninvoked macro), so just keep
+            // using it. The outermost call will remove the segment again.
+            return f(self);
+        }
+
         let prev_segment = self.current_segment.clone();
         self.segments
-            .insert("$dummy".into(), Segment::new(SegmentOptions::default()));
-        self.current_segment = Some(Identifier::new("$dummy"));
+            .insert(dummy.clone(), Segment::new(SegmentOptions::default()));
+        self.current_segment = Some(dummy.clone());
         let result = f(self);
-        self.segments.remove(&Identifier::new("$dummy"));
+        self.segments.remove(&dummy);
         self.current_segment = prev_segment;
         result
     }
